@@ -172,11 +172,11 @@ def run_check(engine, prop, tier, master_seed, tasks, workers, level="exploratio
         print(f"  key={canon(rep['finding_key'])}")
     if len(unknown) > 10:
         print(f"  ... and {len(unknown) - 10} more violating runs")
+    for i, msg in harness[:5]:
+        print(f"HARNESS-ERROR task={i}: {msg[-3000:]}", file=sys.stderr)
     if unknown:
         return EXIT_VIOLATION
     if harness:
-        for i, msg in harness[:5]:
-            print(f"HARNESS-ERROR task={i}: {msg[:2000]}", file=sys.stderr)
         return EXIT_HARNESS
     if not oks:
         print("HARNESS-ERROR: nothing ran", file=sys.stderr)
